@@ -757,6 +757,15 @@ def _list_reverse(it, self, args, kw):
     return NONE
 
 
+@handler("list.count", "tuple.count")
+def _list_count(it, self, args, kw):
+    acc = VInt(0)
+    for y in self.items:
+        c = it.compare(ast.Eq(), y, args[0])
+        acc = it.binop(ast.Add(), acc, it.to_int(c))
+    return acc
+
+
 @handler("list.copy")
 def _list_copy(it, self, args, kw):
     return VList(self.items)
@@ -782,7 +791,7 @@ def _list_remove(it, self, args, kw):
     it.raise_(ValueError, "list.remove(x): x not in list")
 
 
-@handler("list.index")
+@handler("list.index", "tuple.index")
 def _list_index(it, self, args, kw):
     x = args[0]
     for i, y in enumerate(self.items):
